@@ -95,6 +95,8 @@ def run_unit(unit, rec):
             "with-zero-rows": np.vstack([np.zeros(m), T_in[:1], T_out[:2], np.zeros(m)]),
             "inside-with-zero-rows": np.vstack([T_in[:2], np.zeros(m), T_in[2:3]]),
             "only-zero-rows": np.zeros((2, m)),
+            # dim but non-zero rows (captures of order 1e-9 among ordinary rows): they have a chromaticity like any other row
+            "with-dim-rows": np.vstack([T_in[:1], T_out[:1] * 3e-9, T_out[1:2], T_in[1:2] * 1e-9]),
             "single-outside": T_out[:1],
             "single-inside": T_in[:1],
         }
@@ -184,7 +186,7 @@ def run_unit(unit, rec):
                     bad = ("h", "malformed result")
                 elif np.any(out[zero] != 0):
                     bad = ("g", "all-zero rows do not stay zero")
-                elif np.max(np.abs(On.sum(1) - Tn.sum(1))) > 1e-10 * (1 + np.max(Tn.sum(1))):
+                elif np.any(np.abs(On.sum(1) - Tn.sum(1)) > 1e-9 * np.abs(Tn.sum(1))):
                     bad = ("c", "total capture of a target changed")
                 elif all_inside and np.max(np.abs(out - T)) > 1e-12 * (1 + np.max(np.abs(T))):
                     bad = ("f", "targets already inside the chromatic gamut were changed")
